@@ -19,6 +19,7 @@ import (
 	"github.com/formancehq/ledger/internal/storage/ledgerstore"
 	"github.com/formancehq/stack/libs/go-libs/bun/bunpaginate"
 	"math/big"
+	"os"
 	"sort"
 	"strings"
 	"sync"
@@ -922,6 +923,10 @@ func runEngineSchedule(reqs []engReq, funding [][]string, ameta [][]string, plan
 	}
 	take := func(e engArrival) {
 		s.mu.Lock()
+		if e.kind != 2 && s.waiting[e.actor] { // believed to wait for the store, and here it is: it did not wait
+			delete(s.waiting, e.actor)
+			s.expect++
+		}
 		switch e.kind {
 		case 0:
 			s.parked[e.actor] = e.point
@@ -971,6 +976,20 @@ func runEngineSchedule(reqs []engReq, funding [][]string, ameta [][]string, plan
 			case <-time.After(limit):
 				s.mu.Lock()
 				s.trace = append(s.trace, J{"stall": J{"requests": s.expect, "batches": s.expectGate, "step": step}})
+				if os.Getenv("VERIF_ENGINE_DEBUG") != "" { // where the prediction failed: the last entries of the trace
+					from := len(s.trace) - 14
+					if from < 0 {
+						from = 0
+					}
+					for _, t := range s.trace[from:] {
+						b, _ := json.Marshal(t)
+						if len(b) > 260 {
+							b = b[:260]
+						}
+						fmt.Fprintln(os.Stderr, "stall:", string(b))
+					}
+					fmt.Fprintln(os.Stderr, "stall: parked", s.parked, "waiting", s.waiting, "appendOrder", s.appendOrder, "persisted", s.persisted, "busy", s.persBusy)
+				}
 				s.expect, s.expectGate = 0, 0
 				s.mu.Unlock()
 				stalls++
@@ -1108,15 +1127,24 @@ func runEngineSchedule(reqs []engReq, funding [][]string, ameta [][]string, plan
 					s.resumeCh(actorP) <- fmt.Errorf("injected store failure")
 				} else {
 					n := s.gateBatch
-					// waiters of this batch wake up
-					for k := s.persisted; k < s.persisted+n && k < len(s.appendOrder); k++ {
-						w := s.appendOrder[k]
-						if s.waiting[w] {
-							delete(s.waiting, w)
-							s.expect++
+					s.persisted += n
+					// the waiters whose entries are all persisted now wake up
+					var ws []int
+					for w := range s.waiting {
+						last := -1
+						for k, x := range s.appendOrder {
+							if x == w {
+								last = k
+							}
+						}
+						if last < s.persisted {
+							ws = append(ws, w)
 						}
 					}
-					s.persisted += n
+					for _, w := range ws {
+						delete(s.waiting, w)
+						s.expect++
+					}
 					if len(s.appendOrder) > s.persisted {
 						s.expectGate++ // entries were handed over meanwhile: the next batch reaches the gate
 					} else {
